@@ -568,7 +568,7 @@ func init() {
 	core.RegisterProp(&core.PropSpec{
 		ID: "C04", Level: "model_checking", Run: codecRun("C04"),
 		Shards: func(string) int { return 16 },
-		Rule:   codecRule("Oracle on every execution whose input is inside the grammar (no unknown identifiers): accept/reject agrees with the independent table-driven decoder (truncation anywhere and lengths outside [min,max] reject) and on accept every element's identifier, length and content agree (last duplicate wins). Static half: the structure of all 90 generated functions (field order, identifiers, guards, reads/writes, dispatch) extracted with go/parser is diffed against the pinned tables."),
+		Rule:   codecRule("Oracle on every execution whose input is inside the grammar (no unknown identifiers): accept/reject agrees with the independent table-driven decoder (truncation anywhere and lengths outside [min,max] reject) and on accept every element's identifier, length and content agree (last duplicate wins). Static half: the tables that all 90 generated functions implement (field order = emission order, identifiers, half-octet flags, length-field sizes, storage, guard constants, dispatch) are extracted with go/parser and diffed against the pinned tables; places where the code does not look like generator output are listed in the evidence but not asserted (the dynamic half decides behaviour)."),
 		Assumptions: []string{
 			"the pinned tables (mc/spec/ts24501_msgs.json) are the specification; provenance in the file and DESIGN.md section 2",
 		},
